@@ -621,6 +621,7 @@ type ContractFile struct {
 	SpecFuncs []*SpecFunc
 	Axioms    []*Lemma
 	Lemmas    []*Lemma
+	Invs      []*Lemma
 	SMT       []string // raw prelude lines
 	SpecTypes map[string]string
 	Ghosts    []*GhostField
@@ -634,7 +635,7 @@ var clauseKeywords = map[string]bool{
 	"pure": true, "inline": true, "bind": true, "let": true, "mode": true, "callsite": true, "unrollall": true, "fresh": true,
 }
 var topKeywords = map[string]bool{
-	"func": true, "spec": true, "axiom": true, "lemma": true, "smt": true, "ghost": true, "bvtype": true, "bvtypes": true, "const": true,
+	"func": true, "spec": true, "axiom": true, "lemma": true, "invariant": true, "smt": true, "ghost": true, "bvtype": true, "bvtypes": true, "const": true,
 }
 
 // parseContractLines parses the //@-stripped lines of one contract file.
@@ -721,7 +722,7 @@ func parseContractLines(pkg, path string, lines []string, linenos []int) (*Contr
 			default:
 				return nil, fail(fmt.Errorf("spec type|func expected"))
 			}
-		case w == "axiom" || w == "lemma":
+		case w == "axiom" || w == "lemma" || w == "invariant":
 			cur = nil
 			k := strings.Index(rest, ":")
 			if k < 0 {
@@ -734,6 +735,8 @@ func parseContractLines(pkg, path string, lines []string, linenos []int) (*Contr
 			l := &Lemma{Name: strings.TrimSpace(rest[:k]), E: e, Text: strings.TrimSpace(rest[k+1:]), Line: where}
 			if w == "axiom" {
 				cf.Axioms = append(cf.Axioms, l)
+			} else if w == "invariant" {
+				cf.Invs = append(cf.Invs, l)
 			} else {
 				cf.Lemmas = append(cf.Lemmas, l)
 			}
